@@ -465,6 +465,15 @@ fn hostname() -> BoxedStrategy<String> {
     .boxed()
 }
 
+/// ports from a small pool so that the URL, `port` and `ports` often name the same number
+fn port() -> BoxedStrategy<u16> {
+    prop_oneof![
+        4 => prop::sample::select(vec![5432u16, 5433, 6000, 6432]),
+        2 => any::<u16>(),
+    ]
+    .boxed()
+}
+
 fn ip() -> BoxedStrategy<String> {
     prop::sample::select(vec!["127.0.0.1", "10.0.0.7", "::1", "192.168.1.1", "fe80::1"]).prop_map(|s| s.to_string()).boxed()
 }
@@ -486,7 +495,7 @@ fn url() -> BoxedStrategy<Option<String>> {
     let uri = (
         prop::sample::select(vec!["postgres://", "postgresql://"]),
         prop::option::of((text(), prop::option::of(text()))),
-        prop::collection::vec((hostname(), prop::option::of(1u16..=65535)), 0..3),
+        prop::collection::vec((hostname(), prop::option::of(port().prop_map(|p| p.max(1)))), 0..3),
         prop::option::of(text()),
         prop::collection::vec(
             prop::sample::select(vec![
@@ -576,8 +585,8 @@ pub fn case() -> BoxedStrategy<PgCase> {
     let b = (
         opt(ip()),
         opt(prop::collection::vec(ip(), 0..3).boxed()),
-        opt(any::<u16>().boxed()),
-        opt(prop::collection::vec(any::<u16>(), 0..3).boxed()),
+        opt(port()),
+        opt(prop::collection::vec(port(), 0..3).boxed()),
         opt((0u32..100000).boxed()),
         opt(any::<bool>().boxed()),
         opt((0u32..100000).boxed()),
